@@ -789,7 +789,10 @@ class Generator(AbstractODSGenerator):
         return f'=HYPERLINK("#{self.get_in_out_sheet_name(transaction.asset)}.a{row}:z{row}"; "{value}")'
 
     def __get_hyperlinked_summary_value(self, asset: str, value: Any, year: int) -> Any:
-        row: int = self.__tax_sheet_year_2_row[_AssetAndYear(asset, year)]
+        row: Optional[int] = self.__tax_sheet_year_2_row.get(_AssetAndYear(asset, year))
+        if not row:
+            # This may occur if command line time filters are activated: the year has no visible row in the gain / loss detail table
+            return value
         if isinstance(value, (RP2Decimal, int, float)):
             return f'=HYPERLINK("#{self.get_tax_sheet_name(asset)}.a{row}:z{row}"; {value})'
         return f'=HYPERLINK("#{self.get_tax_sheet_name(asset)}.a{row}:z{row}"; "{value}")'
